@@ -49,17 +49,17 @@ struct Peer {
     _reserved: Option<std::os::fd::OwnedFd>,
 }
 
-fn start_peer(idx: usize, a: Addr) -> Option<Peer> {
-    let bind = if a.v6 { "[::1]:0" } else { "127.0.0.1:0" };
-    let l = TcpListener::bind(bind).ok()?;
-    let addr = l.local_addr().ok()?;
-    let stop = Arc::new(AtomicBool::new(false));
+fn start_peer(idx: usize, a: Addr, port: u16) -> Option<Peer> {
+    let bind = if a.v6 { format!("[::1]:{port}") } else { format!("127.0.0.1:{port}") };
     if !a.accepts {
-        // a port that is bound (so nobody else can take it) but not listening: connections are refused
-        drop(l);
-        let (fd, addr) = bound_not_listening(a.v6)?;
+        let stop = Arc::new(AtomicBool::new(false));
+        let (fd, addr) = bound_not_listening(a.v6, port)?;
         return Some(Peer { addr, stop, _listener_thread: None, _reserved: Some(fd) });
     }
+    let l = TcpListener::bind(bind.as_str()).ok()?;
+    let addr = l.local_addr().ok()?;
+    let stop = Arc::new(AtomicBool::new(false));
+
     let s2 = stop.clone();
     let h = std::thread::spawn(move || {
         l.set_nonblocking(true).unwrap();
@@ -86,7 +86,20 @@ fn start_peer(idx: usize, a: Addr) -> Option<Peer> {
     Some(Peer { addr, stop, _listener_thread: Some(h), _reserved: None })
 }
 
-fn bound_not_listening(v6: bool) -> Option<(std::os::fd::OwnedFd, SocketAddr)> {
+static PORT_SEED: std::sync::atomic::AtomicU64 = std::sync::atomic::AtomicU64::new(1);
+
+fn local_port_range() -> (u16, u16) {
+    std::fs::read_to_string("/proc/sys/net/ipv4/ip_local_port_range")
+        .ok()
+        .and_then(|t| {
+            let mut it = t.split_whitespace().filter_map(|x| x.parse::<u16>().ok());
+            Some((it.next()?, it.next()?))
+        })
+        .unwrap_or((32768, 60999))
+}
+
+/// A port that is bound (so nobody else can take it) but not listening: connections are refused.
+fn bound_not_listening(v6: bool, port: u16) -> Option<(std::os::fd::OwnedFd, SocketAddr)> {
     use std::os::fd::{FromRawFd, OwnedFd};
     unsafe {
         let fam = if v6 { libc::AF_INET6 } else { libc::AF_INET };
@@ -101,11 +114,13 @@ fn bound_not_listening(v6: bool) -> Option<(std::os::fd::OwnedFd, SocketAddr)> {
             let sa = &mut *(&mut ss as *mut _ as *mut libc::sockaddr_in6);
             sa.sin6_family = libc::AF_INET6 as u16;
             sa.sin6_addr.s6_addr = std::net::Ipv6Addr::LOCALHOST.octets();
+            sa.sin6_port = port.to_be();
             len = std::mem::size_of::<libc::sockaddr_in6>() as u32;
         } else {
             let sa = &mut *(&mut ss as *mut _ as *mut libc::sockaddr_in);
             sa.sin_family = libc::AF_INET as u16;
             sa.sin_addr.s_addr = u32::from_ne_bytes([127, 0, 0, 1]);
+            sa.sin_port = port.to_be();
             len = std::mem::size_of::<libc::sockaddr_in>() as u32;
         }
         if libc::bind(fd, &ss as *const _ as *const libc::sockaddr, len) != 0 {
@@ -151,12 +166,32 @@ fn intertwine(addrs: &[(usize, Addr)]) -> Vec<usize> {
 
 pub fn execute(sc: &Scn, choices: &[usize]) -> Exec {
     let mut ex = Exec { points: vec![], result: None, spawn_order: vec![], violations: vec![], machinery: None };
+    // Ports are chosen so that, within each family, they DEscend in resolver order: a client that
+    // re-orders the resolver's list (say, by sorting it) is then re-ordering it in every execution.
     let mut peers = Vec::new();
+    let (lo, hi) = local_port_range();
     for (i, a) in sc.addrs.iter().enumerate() {
-        match start_peer(i, *a) {
+        let k = sc.addrs.iter().filter(|b| b.v6 == a.v6).count();
+        let j = sc.addrs[..i].iter().filter(|b| b.v6 == a.v6).count();
+        let span = (hi - lo) as usize / k.max(1);
+        let wlo = lo as usize + (k - 1 - j) * span;
+        let mut got = None;
+        // explicit ports from the window, starting at a per-execution offset, next one when taken
+        let seed = PORT_SEED.fetch_add(7919, Ordering::Relaxed) as usize;
+        for t in 0..span.max(1) {
+            let port = if k == 1 { 0 } else { (wlo + (seed + t * 13) % span.max(1)) as u16 };
+            if let Some(p) = start_peer(i, *a, port) {
+                got = Some(p);
+                break;
+            }
+            if k == 1 {
+                break;
+            }
+        }
+        match got {
             Some(p) => peers.push(p),
             None => {
-                ex.machinery = Some("cannot bind a loopback address".into());
+                ex.machinery = Some("cannot bind a loopback address in the wanted port window".into());
                 return ex;
             }
         }
@@ -584,6 +619,14 @@ pub struct Timing {
     /// families of the unresponsive addresses ahead of the accepting one, in attempt order
     pub holes: Vec<bool>,
     pub accepting_v6: bool,
+    /// connect timeout in ms (each attempt has its own: an address that accepts is reached even when
+    /// the attempts before it have used theirs up)
+    #[serde(default = "default_ct")]
+    pub connect_timeout_ms: u64,
+}
+
+fn default_ct() -> u64 {
+    3000
 }
 
 fn run_timing(t: &Timing) -> (Duration, String, Option<(String, String)>, bool) {
@@ -595,7 +638,7 @@ fn run_timing(t: &Timing) -> (Duration, String, Option<(String, String)>, bool) 
             None => return (Duration::ZERO, "black hole not available".into(), None, false),
         }
     }
-    let peer = match start_peer(0, Addr { v6: t.accepting_v6, accepts: true }) {
+    let peer = match start_peer(0, Addr { v6: t.accepting_v6, accepts: true }, 0) {
         Some(p) => p,
         None => return (Duration::ZERO, "no listener".into(), None, false),
     };
@@ -604,7 +647,7 @@ fn run_timing(t: &Timing) -> (Duration, String, Option<(String, String)>, bool) 
     list.push(peer.addr);
     attohttpc::verif::set_resolution("slow.test", Some(list.clone()));
     let t0 = Instant::now();
-    let res = guarded(|| attohttpc::get("http://slow.test:7777/").connect_timeout(Duration::from_secs(3)).read_timeout(Duration::from_secs(5)).send().and_then(|r| r.text()));
+    let res = guarded(|| attohttpc::get("http://slow.test:7777/").connect_timeout(Duration::from_millis(t.connect_timeout_ms)).read_timeout(Duration::from_secs(5)).send().and_then(|r| r.text()));
     let el = t0.elapsed();
     attohttpc::verif::set_resolution("slow.test", None);
     peer.stop.store(true, Ordering::SeqCst);
@@ -616,7 +659,7 @@ fn run_timing(t: &Timing) -> (Duration, String, Option<(String, String)>, bool) 
     let viol = match res {
         Ok(Ok(b)) if b == "L0" => {
             if el > bound {
-                Some(("unresponsive-address-delays-too-long".to_string(), format!("{} unresponsive address(es) ahead of the accepting one: connected after {el:?}, expected about {} race interval(s) (bound {bound:?}, connect timeout 3 s)", pos, pos)))
+                Some(("unresponsive-address-delays-too-long".to_string(), format!("{} unresponsive address(es) ahead of the accepting one: connected after {el:?}, expected about {} race interval(s) (bound {bound:?}, connect timeout {} ms)", pos, pos, t.connect_timeout_ms)))
             } else {
                 None
             }
@@ -629,14 +672,19 @@ fn run_timing(t: &Timing) -> (Duration, String, Option<(String, String)>, bool) 
 pub fn c17(ctx: &Ctx) -> Report {
     // Part B (sequential: black holes are scarce kernel state, and timing matters)
     let timings: Vec<Timing> = vec![
-        Timing { holes: vec![], accepting_v6: false },
-        Timing { holes: vec![false], accepting_v6: false },
-        Timing { holes: vec![true], accepting_v6: false },
-        Timing { holes: vec![false], accepting_v6: true },
-        Timing { holes: vec![false, false], accepting_v6: false },
-        Timing { holes: vec![true, false], accepting_v6: false },
-        Timing { holes: vec![true, true], accepting_v6: true },
-        Timing { holes: vec![false, false, false], accepting_v6: false },
+        Timing { holes: vec![], accepting_v6: false, connect_timeout_ms: 3000 },
+        Timing { holes: vec![false], accepting_v6: false, connect_timeout_ms: 3000 },
+        Timing { holes: vec![true], accepting_v6: false, connect_timeout_ms: 3000 },
+        Timing { holes: vec![false], accepting_v6: true, connect_timeout_ms: 3000 },
+        Timing { holes: vec![false, false], accepting_v6: false, connect_timeout_ms: 3000 },
+        Timing { holes: vec![true, false], accepting_v6: false, connect_timeout_ms: 3000 },
+        Timing { holes: vec![true, true], accepting_v6: true, connect_timeout_ms: 3000 },
+        Timing { holes: vec![false, false, false], accepting_v6: false, connect_timeout_ms: 3000 },
+        // connect timeouts shorter than / comparable to the race interval: every attempt has its own
+        Timing { holes: vec![true], accepting_v6: false, connect_timeout_ms: 100 },
+        Timing { holes: vec![false], accepting_v6: false, connect_timeout_ms: 150 },
+        Timing { holes: vec![false, false], accepting_v6: false, connect_timeout_ms: 300 },
+        Timing { holes: vec![true, false, false], accepting_v6: false, connect_timeout_ms: 250 },
     ];
     let mut timing_run = 0u64;
     let mut timing_skipped = 0u64;
